@@ -96,7 +96,9 @@ def run(db, cx):
         for (b, i, ev) in f.events():
             if is_geo_call(ev, "move_internal", 1):
                 at = ev["args"][0].get("t", "").replace("this->", "")
-                ok = at in ("state_.pos", "substep.state.pos")
+                ch = [x for x in (ev["args"][0].get("path") or {}).get("chain", []) if x.startswith("f:")]
+                ok = len(ch) >= 2 and ch[-1] == "f:" + C + "OdeState::pos" and (
+                    ch[-2] == "f:" + STATE or ch[-2].endswith("DriverResult::state"))
                 cx.ob("C08.1-ode-geo-sync", "geo_.move_internal argument @%s [%s]"
                       % (short(ev["loc"]).split(":")[-1], tag), ok, at, short(ev["loc"]),
                       why="the geometry may only be moved to the integrated position")
@@ -135,23 +137,21 @@ def run(db, cx):
                 and [x for x in ev["path"]["chain"][ev["path"]["chain"].index("f:" + STATE) + 1:]
                      if x.startswith("f:")] in ([], ["f:" + C + "OdeState::mom"])]
         okm = bool(momw) and all(
-            ("substep" in ev.get("refs", []) and ev.get("kind") in ("assign", "opassign")
-             and ev.get("rhs", "").replace("this->", "") in ("substep.state", "substep.state.mom"))
+            (any(r.endswith("DriverResult::state") for r in ev.get("refs", []))
+             and ev.get("kind") in ("assign", "opassign") and not ev.get("calls")
+             and len(local_refs(ev.get("refs", []))) == 1)
             for ev in momw)
         cx.ob("C08.2-final-direction", "state_.mom is only copied from the driver result [%s]" % tag,
               okm, str([ev.get("rhs") for ev in momw]), short(f.loc),
               why="rescaling the momentum in the propagator would change its magnitude")
 
         # ------------------------------------------------ 3. loop progress
-        conds = [bid for bid, blk in f.blocks.items() if blk.get("tk") == "DoStmt" and blk.get("cond")
-                 and "remaining" in blk["cond"].get("allrefs", blk["cond"].get("refs", []))
-                 + blk["cond"].get("refs", [])]
         loop_ok = False
         d = "loop condition block not found"
         # do-while: the condition may be split by && into two blocks; find the block whose
         # terminator is the DoStmt and walk back to the first operand
         dos = [bid for bid, blk in f.blocks.items() if blk.get("tk") == "DoStmt" and blk.get("cond")
-               and "remaining_substeps" in blk["cond"].get("t", "")]
+               and None not in blk["succ"] and bid in f.live_blocks()]
         if dos:
             do_b = dos[0]
             # operand blocks: predecessors chain with '&&' terminator
@@ -164,36 +164,45 @@ def run(db, cx):
             # body entry: the successor of the DoStmt block that can reach it again
             body = [s for s in head_succ if do_b in f.reach([s])]
             cond_text = f.blocks[do_b]["cond"].get("t", "")
-            reads_ok = "remaining >" in cond_text and "remaining_substeps > 0" in cond_text
+            V = set()
+            for cb in cond_blocks:
+                cc = f.blocks[cb]["cond"]
+                V |= local_refs(cc.get("allrefs", cc.get("refs", [])))
+            reads_ok = len(V) >= 1
             if body:
                 blocked = [bid for bid, blk in f.blocks.items()
-                           if any(e["e"] == "def" and e.get("var") == "remaining" for e in blk["ev"])]
+                           if any(e["e"] == "def" and e.get("var") in V for e in blk["ev"])]
                 r = f.reach(body, blocked_blocks=blocked)
                 loop_ok = not (set(first) & r) and reads_ok
-                d = "every path body->condition redefines `remaining`; condition `%s`" % cond_text
+                d = "every path body->condition redefines a loop variable %s; condition `%s`" % (sorted(V), cond_text)
                 if not loop_ok:
                     d = "a path through the loop body reaches the condition without redefining " \
-                        "`remaining` (or the condition no longer reads remaining/remaining_substeps)"
+                        "any variable the condition reads (%s)" % sorted(V)
         cx.ob("C08.3-loop-progress", "substep loop redefines `remaining` on every body path [%s]" % tag,
               loop_ok, d, short(f.loc),
               why="a body path that leaves `remaining` unchanged can spin forever on the same substep")
-        acc_blocks = [b for (b, i, ev) in f.events("def") if ev.get("var") == "remaining_substeps"
-                      and ev.get("op") == "--"]
+        acc_blocks = [b for (b, i, ev) in f.events("def") if ev.get("op") == "--"
+                      and any(is_geo_call(e, "move_internal", 1) for e in f.blocks[b]["ev"])]
         okd = bool(acc_blocks) and all(
             any(is_geo_call(e, "move_internal", 1) for e in f.blocks[b]["ev"]) for b in acc_blocks)
         cx.ob("C08.3-loop-progress", "the accepting path decrements the substep budget [%s]" % tag, okd,
               "", short(f.loc), why="the looping cut-off relies on the budget being spent")
 
         # ------------------------------------------------ 4. flag <-> geometry state
+        resvars = set()
+        for (_b, _i, e) in f.events("return"):
+            resvars |= local_refs(e.get("refs", []))
+        cx.require(len(resvars) == 1, "FieldPropagator: cannot identify the returned result variable")
+        resvar = next(iter(resvars))
         for (b, i, ev) in f.events():
             if is_geo_call(ev, "move_internal", 1):
                 evs = f.blocks[b]["ev"]
                 cleared = any(e["e"] == "write" and path_leaf(e.get("path")) == C + "Propagation::boundary"
-                              and e.get("path", {}).get("root") == "l:result"
+                              and e.get("path", {}).get("root") == "l:" + resvar
                               and e.get("rhs") == "false" for e in evs)
                 guarded = False
                 for br in f.branch_blocks(lambda c, _b: "F:" + C + "Propagation::boundary" in c.get("refs", [])
-                                          and "result" in c.get("refs", []) and "op" not in c):
+                                          and resvar in c.get("refs", []) and "op" not in c):
                     if f.guarded_by_edge((b, i), br, f.cond_polarity_edge(br, False)):
                         guarded = True
                 cx.ob("C08.4-flag-matches-geo", "move_internal @%s happens with result.boundary false [%s]"
@@ -205,7 +214,7 @@ def run(db, cx):
             if is_geo_call(ev, "move_to_boundary", 0):
                 guarded = False
                 for br in f.branch_blocks(lambda c, _b: "F:" + C + "Propagation::boundary" in c.get("refs", [])
-                                          and "result" in c.get("refs", []) and "op" not in c):
+                                          and resvar in c.get("refs", []) and "op" not in c):
                     if f.guarded_by_edge((b, i), br, f.cond_polarity_edge(br, True)):
                         guarded = True
                 cx.ob("C08.4-flag-matches-geo", "move_to_boundary only under result.boundary [%s]" % tag,
